@@ -25,5 +25,8 @@ CHECKS = {
     "C08": {"category": "proof", "technique": "contract-based deductive verification: relational obligation log rho(sample path) == log_p(result) on the real proposal code with a ghost density accumulator; z3",
             "text": "Faithful sampling of the three proposals (for every parent state, any number of top-level clones, any outlier proposal probability), the incremental weight formula with and without a permutation distribution, the final-step correction and log_normalize are proved on the real source; completeness of the candidate sets of the adapted proposals and the class invariant established by _init_dist are covered by exact enumeration on small parents (bounded).",
             "note": PROOF_NOTE},
+    "C13": {"category": "proof", "technique": "contract-based deductive verification with a ghost draw trace over scipy's rvs calls (pyvc + z3, NRA for the mixture weight); spying Generator as bounded stand-in",
+            "text": "For all a, b, alpha > 0 and 1 <= K <= n the real sample() draws eta ~ Beta(alpha+1, n), then picks the Gamma(a+K, .) component with exactly the weight of x^(a+K-1) in x^(a+K-2)(x+n)exp(-x(b-log eta)), then draws Gamma(shape, scale 1/(b - log eta)) and clamps at 1e-10, all from the sampler's own generator; run.py passes K and n with the outlier list excluded for any tree, stores the result through the setter that refreshes log_alpha, and one TreeJointDistribution object is shared by kernel, samplers and trace writer. That the step leaves the conditional posterior invariant is the cited theorem (trusted).",
+            "note": PROOF_NOTE},
 }
 NOT_APPLICABLE = {("C%02d" % i): "check not built yet (in progress; see DESIGN.md section 5)" for i in range(1, 21) if ("C%02d" % i) not in CHECKS}
